@@ -1,6 +1,7 @@
 /* C06 — TLS 1.3 parsers that walk peer-supplied windows (src/tls13.c) */
 #define CONTRACT_TLS_GETTERS
 #define CONTRACT_TLS13_PARSERS
+#define CONTRACT_TLS13_GETTERS
 #include "tls_handshake.h"
 #include "src/tls13.c"
 #include "stubs_stdio.h"
@@ -25,6 +26,48 @@ void h_tls13_get_certificate_verify(void)
 	*alg = H.alg0;
 	int ret = tls13_record_get_handshake_certificate_verify(record, alg, sig, siglen);
 	OBSERVE_INT("ret", ret);
+	if (ret == 1) { CANARY("parsed"); }
+	CANARY("returned");
+}
+
+//@job name=tls13_get_finished props=C06 enforce=tls13_record_get_handshake_finished replace=tls_record_get_handshake timeout=600
+void h_tls13_get_finished(void)
+{
+	INPUT(tp_in, H); ASSUME(H.len >= 5 && H.len <= 5 + 65535);
+	MKBUF(record, H.first, H.len); ASSUME(((((size_t)record[3]) << 8) | record[4]) + 5 == H.len);
+	const uint8_t **out = malloc(sizeof(*out)); size_t *outlen = malloc(sizeof(size_t)); ASSUME(out && outlen);
+	int ret = tls13_record_get_handshake_finished(record, out, outlen);
+	if (ret == 1) { CANARY("parsed"); }
+	CANARY("returned");
+}
+//@job name=tls13_get_certificate_request props=C06 enforce=tls13_record_get_handshake_certificate_request replace=tls_record_get_handshake,tls_uint8array_from_bytes,tls_uint16array_from_bytes,tls_length_is_zero timeout=600
+void h_tls13_get_certificate_request(void)
+{
+	INPUT(tp_in, H); ASSUME(H.len >= 5 && H.len <= 5 + 65535);
+	MKBUF(record, H.first, H.len); ASSUME(((((size_t)record[3]) << 8) | record[4]) + 5 == H.len);
+	const uint8_t **rc = malloc(sizeof(*rc)), **ex = malloc(sizeof(*ex)); size_t *rcl = malloc(sizeof(size_t)), *exl = malloc(sizeof(size_t)); ASSUME(rc && ex && rcl && exl);
+	int ret = tls13_record_get_handshake_certificate_request(record, rc, rcl, ex, exl);
+	if (ret == 1) { CANARY("parsed"); }
+	CANARY("returned");
+}
+
+//@job name=tls13_get_encrypted_extensions props=C06 enforce=tls13_record_get_handshake_encrypted_extensions replace=tls_record_get_handshake,tls_uint16array_from_bytes timeout=600
+void h_tls13_get_encrypted_extensions(void)
+{
+	INPUT(tp_in, H); ASSUME(H.len >= 5 && H.len <= 5 + 65535);
+	MKBUF(record, H.first, H.len); ASSUME(((((size_t)record[3]) << 8) | record[4]) + 5 == H.len);
+	int ret = tls13_record_get_handshake_encrypted_extensions(record);
+	if (ret == 1) { CANARY("parsed"); }
+	CANARY("returned");
+}
+
+//@job name=tls13_get_certificate props=C06 enforce=tls13_record_get_handshake_certificate replace=tls_record_get_handshake,tls_uint8array_from_bytes,tls_uint24array_from_bytes,tls_length_is_zero timeout=600
+void h_tls13_get_certificate(void)
+{
+	INPUT(tp_in, H); ASSUME(H.len >= 5 && H.len <= 5 + 65535);
+	MKBUF(record, H.first, H.len); ASSUME(((((size_t)record[3]) << 8) | record[4]) + 5 == H.len);
+	const uint8_t **rc = malloc(sizeof(*rc)), **cl = malloc(sizeof(*cl)); size_t *rcl = malloc(sizeof(size_t)), *cll = malloc(sizeof(size_t)); ASSUME(rc && cl && rcl && cll);
+	int ret = tls13_record_get_handshake_certificate(record, rc, rcl, cl, cll);
 	if (ret == 1) { CANARY("parsed"); }
 	CANARY("returned");
 }
